@@ -560,6 +560,67 @@ def gen_if_bare_call(rng, env, depth, lab, sp):
     return ("ifcall", lab, sp, cond, d)
 
 
+def recase_name(rng, x):
+    """another spelling of the same Fortran identifier (letter case is not significant)"""
+    k = rng.random()
+    if k < 0.35:
+        return x.upper()
+    if k < 0.6:
+        return x.capitalize()
+    return "".join(c.upper() if rng.random() < 0.4 else c for c in x)
+
+
+def recase_e(rng, e, p):
+    k = e[0]
+    if k in ("lit", "str"):
+        return e
+    if k == "des":
+        return ("des", recase_d(rng, e[1], p))
+    if k == "par":
+        return ("par", recase_e(rng, e[1], p))
+    if k == "un":
+        return ("un", e[1], recase_e(rng, e[2], p))
+    return ("bin", recase_e(rng, e[1], p), e[2], recase_e(rng, e[3], p))
+
+
+def recase_d(rng, d, p):
+    n = recase_name(rng, d[1]) if rng.random() < p else d[1]
+    k = d[0]
+    if k == "l0":
+        return ("l0", n)
+    if k == "la":
+        return ("la", n, recase_e(rng, d[2], p))
+    if k == "p0":
+        return ("p0", n, recase_d(rng, d[2], p))
+    return ("pa", n, recase_e(rng, d[2], p), recase_d(rng, d[3], p))
+
+
+def recase_stmt(rng, st, p):
+    """the statement with some identifiers spelled in another letter case, occurrence by occurrence"""
+    k = st[0]
+    R = lambda e: recase_e(rng, e, p)
+    if k == "form":
+        f = st[3]
+        if f[0] in ("FIo", "FIoItems", "FAlloc"):
+            f = (f[0], f[1]) + tuple(R(x) for x in f[2:])
+        elif f[0] == "FIfArith":
+            f = (f[0], R(f[1])) + f[2:]
+        elif f[0] == "FDo":
+            f = (f[0], recase_name(rng, f[1]) if rng.random() < p else f[1], R(f[2]), R(f[3]))
+        elif f[0] != "FPlain":
+            f = (f[0],) + tuple(R(x) for x in f[1:])
+        return ("form", st[1], st[2], f)
+    if k == "call":
+        return ("call", st[1], recase_d(rng, st[2], p))
+    if k == "ifcall":
+        return ("ifcall", st[1], st[2], R(st[3]), recase_d(rng, st[4], p))
+    if k == "assoc":
+        return ("assoc", st[1], [(recase_name(rng, n) if rng.random() < p else n, R(e)) for n, e in st[2]])
+    if k == "goto":
+        return ("goto", st[1], R(st[2]))
+    return st
+
+
 def gen_label(rng, p=0.08):
     return str(rng.choice([10, 20, 100, 999])) if rng.random() < p else None
 
@@ -646,9 +707,10 @@ def gen_simple_stmt(rng, env, depth):
         return ("format", str(rng.choice([100, 200, 9000])), not env.knobs.get("format_nospace", False) or rng.random() < 0.5,
                 gen_ptree(rng, 2))
     if k == "goto":
-        sel = name(rng.choice(env.scalars or ["i"]))
-        if env.knobs.get("goto_expr") and env.funcs:
-            sel = ("des", ("la", env.funcs[0][0], lit("1")))
+        # the selector of a computed GO TO: any integer expression, references included
+        sel = E(depth) if rng.random() < 0.7 else name(rng.choice(env.scalars or ["i"]))
+        if r_e(sel).lstrip()[:1] in ("(", ""):
+            sel = name(rng.choice(env.scalars or ["i"]))
         return ("goto", [rng.choice(["10", "20", "30"]) for _ in range(rng.choice([1, 2, 3]))], sel)
     raise ValueError(k)
 
@@ -888,7 +950,9 @@ def fill_unit(rng, proj, mod, unit, host):
         unit["locals"]["implicit_arrays"] = ["w_imp", "z_blk"]
     if knobs.get("unknown_proc", True):
         env.unknown_procs = rng.sample(["ext_fn", "extsub", "sum_ext"], rng.choice([0, 1]))
-    unit["body"] = gen_body(rng, env, rng.choice([2, 4, 6, 9]), rng.choice([1, 2, 2, 3]))
+    body = gen_body(rng, env, rng.choice([2, 4, 6, 9]), rng.choice([1, 2, 2, 3]))
+    p_case = knobs.get("p_case", rng.choice([0.0, 0.15, 0.3, 0.6]))
+    unit["body"] = [recase_stmt(rng, s_, p_case) for s_ in body] if p_case else body
     unit["env_types"] = sorted(env.types)
 
 
